@@ -59,6 +59,55 @@ func minutes(quick, thorough float64) func(bool) time.Duration {
 	}
 }
 
-func op(kind string, sender, a, b int) appx.Op { return appx.Op{Kind: kind, Sender: sender, A: a, B: b} }
+func op(kind string, sender, a, b int) appx.Op {
+	return appx.Op{Kind: kind, Sender: sender, A: a, B: b}
+}
 
 var endblock = appx.Op{Kind: "endblock"}
+
+// baseHistory is a scripted valid history used by C10 and C13.
+type baseHistory struct {
+	Name    string
+	Genesis appx.Genesis
+	Ops     []appx.Op
+}
+
+func appWorld() *appx.World {
+	_, _ = c09World()
+	w, _ := c09World()
+	return w
+}
+
+// baseHistories reach: fresh chain, config voted, eon running through its DKG
+// messages, failure votes and restart, set change with start and check-ins,
+// key changes after the fork, foreign/stale/duplicate traffic.
+func baseHistories() []baseHistory {
+	g4 := appx.Genesis{Members: []int{0, 1, 2, 3}, Threshold: 2}
+	g3 := appx.Genesis{Members: []int{0, 1, 2}, Threshold: 2, ForkEnabled: true}
+	return []baseHistory{
+		{Name: "H1 n=4 t=2: config, check-ins, DKG messages, failure votes, restart, success", Genesis: g4, Ops: []appx.Op{
+			op("seen", 0, 0, 0), op("seen", 1, 0, 0), endblock,
+			op("cfg", 0, 0, 0), op("cfg", 1, 0, 0), op("checkin", 0, 0, 0), op("checkin", 1, 0, 0), op("checkin", 2, 0, 0), endblock,
+			op("commit", 0, 0, 1), op("commit", 1, 0, 1), op("eval", 0, 0, 0), op("eval", 1, 0, 0), endblock,
+			op("accuse", 2, 0, 0), op("apology", 3, 0, 0), op("result", 0, 0, 0), op("result", 1, 0, 0), endblock,
+			op("commit", 2, 0, 1), op("result", 2, 0, 1), op("result", 3, 0, 1), op("checkin", 3, 0, 0), endblock,
+		}},
+		{Name: "H2 n=3 t=2 fork: check-ins with key change, set rotation, start of new config", Genesis: g3, Ops: []appx.Op{
+			op("checkin", 0, 0, 0), op("seen", 0, 0, 0), endblock,
+			op("checkin", 0, 1, 0), op("checkin", 1, 0, 0), op("seen", 1, 0, 0), op("checkin", 2, 0, 0), endblock,
+			op("cfg", 1, 1, 0), op("cfg", 2, 1, 0), endblock,
+			op("checkin", 3, 0, 0), op("seen", 2, 0, 0), endblock,
+			op("commit", 1, 0, 1), op("eval", 2, 0, 0), op("result", 1, 0, 1), op("result", 2, 0, 1), endblock,
+		}},
+		{Name: "H3 n=4 t=2: foreign and stale traffic between valid steps", Genesis: g4, Ops: []appx.Op{
+			op("cfg", 4, 0, 0), op("checkin", 4, 0, 0), op("seen", 4, 0, 0), op("cfg", 0, 2, 0), endblock,
+			op("cfg", 0, 1, 0), op("cfg", 1, 0, 0), op("cfg", 2, 0, 0), op("result", 0, 0, 1), endblock,
+			op("result", 4, 0, 0), op("commit", 4, 0, 1), op("eval", 0, 1, 0), op("seen", 2, 1, 0), endblock,
+		}},
+		{Name: "H4 n=3 t=2 fork: empty blocks and late activity", Genesis: g3, Ops: []appx.Op{
+			endblock, endblock, op("seen", 0, 0, 0), op("seen", 1, 0, 0), op("seen", 2, 0, 0), endblock,
+			op("checkin", 0, 0, 0), op("checkin", 1, 0, 0), op("checkin", 2, 0, 0), endblock, endblock,
+			op("cfg", 0, 0, 0), op("cfg", 2, 0, 0), endblock,
+		}},
+	}
+}
